@@ -257,6 +257,24 @@ def chk_coords(case, acc, seed):
             acc.violation('coords:supplied-arrays-history', case, 'the value at caller-supplied coordinates changed after the same arrays were used with a smaller mask')
         acc.cls('supplied-reuse')
     if val == 1 and len(pts) >= 3 and dmax > 0:
+        # an explicit shift places the origin that far from the array centre floor(n/2) -- (0, 0) included -- whatever the mask
+        for sh in ((0, 0), (0.0, 0.0), (1, 0), (0, -1), (0.5, 0.25)):
+            try:
+                r_e, _t = lentil.zernike_coordinates(mask, shift=sh)
+            except Exception as e:
+                acc.violation(f'coords:explicit-shift:raises:{type(e).__name__}', dict(case, shift=sh), repr(e))
+                continue
+            de = np.hypot(np.arange(shape[0])[:, None] - (shape[0] // 2 + sh[0]), np.arange(shape[1])[None, :] - (shape[1] // 2 + sh[1]))
+            dm = max(de[tuple(p_)] for p_ in pts)
+            if dm > 0 and rm.maxerr(np.asarray(r_e) * dm, de) > 1e-9 * (1 + dm):
+                acc.violation('coords:explicit-shift', dict(case, shift=sh), f'with shift={sh} the origin is not at the array centre {tuple(s_ // 2 for s_ in shape)} + shift')
+        # caller-supplied coordinates beyond the unit disc: still the textbook polynomial (m = 0 modes: no angular convention)
+        rho_b = np.asarray(lentil.zernike_coordinates(mask)[0], float) * 1.7
+        th_b = np.asarray(lentil.zernike_coordinates(mask)[1], float)
+        for j, poly in ((4, lambda r: 2 * r ** 2 - 1), (11, lambda r: 6 * r ** 4 - 6 * r ** 2 + 1), (22, lambda r: 20 * r ** 6 - 30 * r ** 4 + 12 * r ** 2 - 1)):
+            zb_ = np.asarray(lentil.zernike(mask, j, normalize=False, rho=rho_b, theta=th_b), float)
+            if rm.maxerr(zb_[on], poly(rho_b[on])) > 1e-9 * (1 + np.max(np.abs(poly(rho_b[on])))):
+                acc.violation('value:supplied-rho-beyond-unit-disc', dict(case, j=j), f'Z{j} at caller-supplied rho up to {rho_b[on].max():.2f} is not the radial polynomial (max diff {rm.maxerr(zb_[on], poly(rho_b[on])):.3e})')
         # the rotate argument is an angle in degrees: a full turn is no rotation, a quarter turn is +-pi/2, opposite angles cancel,
         # and it leaves rho alone (which way is positive is not judged)
         try:
